@@ -98,8 +98,8 @@ LocalIns(r, cn, i, k) ==
      /\ dels' = dels
      /\ hist' = Append(hist, [a |-> "ins", r |-> r, p |-> PathOf(R, cn, 4), i |-> i, n |-> 1, k |-> k])
 
-(* insert n primitive units at visible index i as ONE operation (one block: unit j+1 has origin unit j) *)
-LocalInsN(r, cn, i, n) ==
+(* insert n primitive units at visible index i as ONE operation (one block: unit j+1 has origin unit j); h = history record *)
+InsNWith(r, cn, i, n, h) ==
   LET R   == S[r]
       c   == ContKey(cn, "")
       s   == Lst(R.lst, c)
@@ -116,7 +116,12 @@ LocalInsN(r, cn, i, n) ==
   IN /\ E' = E2 /\ XD' = XD
      /\ Emit(r, R2, DOMAIN new, {})
      /\ dels' = dels
-     /\ hist' = Append(hist, [a |-> "ins", r |-> r, p |-> PathOf(R, cn, 4), i |-> i, n |-> n, k |-> "u"])
+     /\ hist' = Append(hist, h)
+LocalInsN(r, cn, i, n) ==
+  InsNWith(r, cn, i, n, [a |-> "ins", r |-> r, p |-> PathOf(S[r], cn, 4), i |-> i, n |-> n, k |-> "u"])
+(* insert_with_attributes: the same abstract step (the marks it creates are not countable, see LocalFmt) *)
+LocalInsA(r, cn, i, n, key, val) ==
+  InsNWith(r, cn, i, n, [a |-> "insa", r |-> r, p |-> PathOf(S[r], cn, 4), i |-> i, n |-> n, key |-> key, v |-> val])
 
 (* format n visible units from index i with key := val.  Formatting marks are not countable: the abstract lists  *)
 (* (visible elements, their order, the indexes of later operations) do not change; the step only produces an    *)
@@ -215,6 +220,7 @@ ScriptStep ==
     CASE st.a = "ins" /\ st.n > 1 -> /\ st.i <= Len(Visible(E, S[st.r], ContKey(cn, ""))) /\ LocalInsN(st.r, cn, st.i, st.n)
       [] st.a = "ins" /\ st.n <= 1 -> /\ st.i <= Len(Visible(E, S[st.r], ContKey(cn, ""))) /\ LocalIns(st.r, cn, st.i, st.k)
       [] st.a = "fmt" -> LocalFmt(st.r, cn, st.i, st.n, st.key, st.v)
+      [] st.a = "insa" -> /\ st.i <= Len(Visible(E, S[st.r], ContKey(cn, ""))) /\ LocalInsA(st.r, cn, st.i, st.n, st.key, st.v)
       [] st.a = "del" -> LocalDelN(st.r, cn, st.i, st.n)
       [] st.a = "set" -> MapSet(st.r, cn, st.key, st.k)
       [] st.a = "rem" -> MapRem(st.r, cn, st.key)
